@@ -125,6 +125,9 @@ let () =
        (* C11 speaks of strings over the base64 alphabet; a foreign byte is C06's clause (stream decode_faults) *)
        let corr = (m = impl) and prop = (if sp = "err InvalidBase64" then None else Some (cls sp = cls impl)) in
        count corr prop; verdict id corr prop (Printf.sprintf "model=%s\tspec=%s" m sp)
+     | [id; "vlq_sweep"; from; upto; bad; first] ->
+       (* impl-only exhaustive round trip over a chunk of integers (a test; the theorem is C11_decode_encode) *)
+       let prop = Some (bad = "0") in count true prop; verdict id true prop (Printf.sprintf "range=[%s,%s] mismatches=%s first=%s" from upto bad first)
      | [id; "vlq_gen"; nums; impl] ->
        let ns = zlist_of_string nums in
        let m = (match generate_vlq_segment ns with Some s -> "ok " ^ hex_of_bytes s | None -> "nonterminating") in
